@@ -88,7 +88,7 @@ SRC = {
     "C09": "find_end_subtree_from_i, find_id_args_from_i, find_first_difference_between_two, common_region_two_trees, Tree.subtree_id / subtree / concat, Tree.get_levels / get_max_level (= levels / depth), Tree.get_common_region for two trees (= commonRegion2) (equal to the model on every well-formed tree, with no out-of-range access)",
     "C10": "the vectorised kernels SamplingGrid.bit_to_int / _decode and GrayCode.gray_to_bit / bit_to_gray / _decode (whole-array numpy code read through TFV.Model.Np: on every rectangular 0/1 array they compute, row by row, bitsToNat / grayToBin / binToGray / code of the model; the two Gray conversions are mutually inverse) and the encoder SamplingGrid.int_to_bit (= natToBits w of every code for every given width w >= 1; encode then decode through the regenerated kernels returns the codes, directly and through the Gray code)",
     "C11": "binary_search_interval, check_for_value, argsort_k, tournament_selection (incl. the arguments it passes to random_sample: len(fitness), tour_size, replace=False), proportional_selection / rank_selection (weights = fitness / rank, with replacement), sattolo_shuffle, random_sample, random_weighted_sample; minmax_scale (= Select.minmax on every non-empty vector, floats read as rationals; the empty vector is rejected)",
-    "C14": "SelfCGA._adapt (the wiring of one adaptation step: each table updated once from the operators of its own kind with its own threshold; the next operators drawn from the updated table of their own kind); PDPGA / PDPGP._adapt (with remembered parents: success flags recomputed first, each table updated once from the operators of its own kind with its own threshold, memory emptied; in every call the next operators are drawn from the current table of their own kind); PDPGA / PDPGP._get_new_individ_g (one remembered parent fitness per offspring, picked among the raw fitness of the selected parents)",
+    "C14": "SelfCGA._get_new_proba (= SelfConf.newProba over the rationals: the winner gains K/iters, every entry loses K/(z*iters), clip to [threshold, 1], renormalise - the table read as its value vector in key order, the winner as the position of its key; a winner that is not a key is rejected); SelfCGA._adapt (the wiring of one adaptation step: each table updated once from the operators of its own kind with its own threshold; the next operators drawn from the updated table of their own kind); PDPGA / PDPGP._adapt (with remembered parents: success flags recomputed first, each table updated once from the operators of its own kind with its own threshold, memory emptied; in every call the next operators are drawn from the current table of their own kind); PDPGA / PDPGP._get_new_individ_g (one remembered parent fitness per offspring, picked among the raw fitness of the selected parents)",
     "C15": "SHADE._generate_F_CR and SHAGA._generate_MR_CR (the two parameters of individual i from one drawn memory cell, both memories read in range) and SHADE._update_u_F (Lehmer mean of the successful F's, a copy of the old cell when there were none); SHADE._update_u_CR (= Adapt.updateCR: improvement-weighted arithmetic mean, a copy without successes or without positive total improvement) and SHAGA._update_u (= Adapt.updateU: improvement-weighted Lehmer mean), lehmer_mean itself with and without weights (= Adapt.lehmer / lehmer1; 0 when the denominator vanishes) and their composition, SHAGA._randn (= the drawn Cauchy value clamped to [0, 1]) and SHAGA._randc (= the first of the successive Cauchy values in (0, 5/str_len]; the while loop as a fuel-bounded recursion), over the rationals; jDE's greedy block (an individual's F and CR change exactly when its trial is accepted); jDE._get_mutate_F / _get_mutate_CR (position by position: kept where the first draw is not below the rate, F_min + r * F_max resp. r for a value r of the second draw elsewhere - so a regenerated F lies in [F_min, F_min + F_max] and a regenerated CR in [0, 1)); SHADE's whole bookkeeping after the evaluation (archive receives the parents replaced by strictly better trials; successful parameters and improvements; memory cell k read, its cyclic successor written in both memories, index advanced to it)",
     "C16": "EvolutionaryAlgorithm._get_n_jobs (= normJobs), _split_population (= Split.split on the points np.linspace(0, pop_size, n_jobs + 1) - which points are asked for is part of the statement; with C16_split the chunks are non-empty and cover the population once)",
     "C17": "EvolutionaryAlgorithm._update_data (what is recorded per generation: the generation's own series, and max_fitness / max_g / max_ph taken at the same index, the first maximum of the fitness series)",
